@@ -110,6 +110,20 @@ def gen_cases(ctx, n):
         out.append(Case("safe " + S.rand_bytes(r, r.randrange(1, 30)).hex(), tags={"safe-op"}))
     for ln in (255, 256, 511, 512, 1022, 1023, 1024, 1025, 2047, 2048, 4096, 5000, 70000):
         out.append(Case("safe " + hostile(r, ln).hex(), tags={"safe-op", "long"}))
+    # fixed archives (not left to the random draws): printf directives in every string field (a sanitised string used as a FORMAT), and a
+    # LATER member whose method field begins and ends with a non-printable byte (only the first member's method is vetted by the scan)
+    fixed = []
+    for nm in (b"%n%n%n%n", b"%s%s%s%s%s%s", b"%c%c%c%c%c%c%c%c", b"%5000x%n", b"100%"):
+        fixed.append(E.encode(E.Fields(level=2, method=b"-lh0-", clen=2, length=2, crc=crc16(b"ok"), os_type=0x55, time=1000000000,
+                                       exts=[(E.EXT_FILENAME, nm), (E.EXT_PATH, nm + b"\xff"), (E.EXT_USER, nm), (E.EXT_GROUP, nm)])) + b"ok"
+                     + E.encode(E.Fields(level=2, method=b"-lhd-", clen=0, length=0, crc=0, os_type=0x55, time=1000000000,
+                                         exts=[(E.EXT_FILENAME, nm + b"|" + nm), (E.EXT_PERM, (0o120777).to_bytes(2, "little"))])))
+    for m2 in (b"\x1blh0\x9b", b"\xfflh0\x07", b"\x9b\x9b\x9b\x9b\x9b"):
+        fixed.append(E.encode(E.Fields(level=1, method=b"-lh0-", clen=2, length=2, crc=crc16(b"ok"), os_type=0x55, name=b"first", time=0x3c210000)) + b"ok"
+                     + E.encode(E.Fields(level=1, method=m2, clen=2, length=2, crc=crc16(b"ok"), os_type=0x55, name=b"second", time=0x3c210000)) + b"ok")
+    for d in fixed:
+        for mode in MODES:
+            out.append(Case("cli18 %s %s %s" % (mode, "file", d.hex()), tags={"cli", "mode=" + mode, "fixed"}, note="cli"))
     for i in range(n):
         d = hostile_archive(r)
         for mode in (r.sample(MODES, 5) if ctx.tier == "quick" else MODES):
@@ -194,7 +208,12 @@ def evaluate_own(ctx, env, cases, with_model):
 
 def judge_all(case, c_out):
     if case.op.startswith("safe "):
-        ob = b"" if c_out == "-" else bytes.fromhex(c_out)
+        if c_out.startswith(("CRASH", "TIMEOUT")):
+            return "safe_printf crashed: " + c_out[:150]
+        try:
+            ob = b"" if c_out == "-" else bytes.fromhex(c_out)
+        except ValueError:
+            return "safe_printf: unexpected harness output " + c_out[:100]
         if any(b not in ALLOWED for b in ob):
             return "safe_printf let a non-printable byte through"
     return None
